@@ -101,6 +101,28 @@ int attr_node_value_get(const struct attr_node *value_node, void *value,
 {
     ut_assert(value_node->type == attr_node_type_value);
 
+    /* the getters of the fixed-size types do not look at capacity */
+    size_t min_capacity = 0;
+
+    switch (value_node->value.type) {
+    case xcm_attr_type_bool:
+	min_capacity = sizeof(bool);
+	break;
+    case xcm_attr_type_int64:
+	min_capacity = sizeof(int64_t);
+	break;
+    case xcm_attr_type_double:
+	min_capacity = sizeof(double);
+	break;
+    default:
+	break;
+    }
+
+    if (capacity < min_capacity) {
+	errno = EOVERFLOW;
+	return -1;
+    }
+
     return value_node->value.get(value_node->value.s,
 				 value_node->value.context,
 				 value, capacity);
